@@ -540,7 +540,7 @@ def second_expansion_keeps_the_invariants(ctx, n, targets, struct=None, listed=N
 # the fuel tops are 11 and 22, and the fuel mass drops to 0.909 of its value.
 # While the flag is set, the obligations on the new target (exactly one target, boundary follows it, its mass is
 # conserved) are not stated; set it to False to see the violation.
-KNOWN_DEFECT_redesignation_keeps_old_target = True
+KNOWN_DEFECT_redesignation_keeps_old_target = False  # repaired in /repo (fix: 4ce6b8a)
 
 FLAG_OF = {"fuel": Flags.FUEL, "clad": Flags.CLAD, "duct": Flags.DUCT}
 
